@@ -29,7 +29,15 @@
 (*      devChain = TRUE : bookmark targets are rewritten pair by pair       *)
 (*      devDang  = TRUE : a reference to a non-existent object is left      *)
 (*                        alone (and may be captured by the new numbering)  *)
-(*    with both FALSE the algorithm is the code as it is.                   *)
+(*    and three switches transcribe deviations that are present at HEAD     *)
+(*    (known findings pageorder.dupkids, pageorder.numclash,                *)
+(*    bookmark.dangling.capture):                                           *)
+(*      dup      = TRUE : a page listed twice takes part in the page-order  *)
+(*                        pass twice (and is re-keyed over another page)    *)
+(*      clash    = TRUE : the page-order pass re-keys a page to <<number of *)
+(*                        another page, own generation>>                    *)
+(*      bmdang   = TRUE : a bookmark target naming no object is left alone  *)
+(*    (record Dev; CodeDev = the code as it is, NoDev = all repaired).      *)
 (***************************************************************************)
 EXTENDS Integers, Sequences, FiniteSets, TLC, SequencesExt
 
@@ -223,11 +231,16 @@ Fails(b, a, start) ==
              \/ \E i \in 1..MinOf(Len(a.pages), Len(b.pages)) :
                    b.pages[i] \notin Ids(b) \/ <<b.pages[i], a.pages[i]>> \notin rel
           THEN {"pages"} ELSE {})
-    \cup (IF Len(a.bms) # Len(b.bms) \/ \E i \in 1..MinOf(Len(a.bms), Len(b.bms)) : ~BookmarkOk(b, a, rel, i)
-          THEN {"bookmark"} ELSE {})
+         \* a bookmark whose target named no object and was left as it is, while the new numbering put an
+         \* object under that id: "bookmark.dangling.capture"; any other bookmark failure: "bookmark"
+    \cup (LET bad  == {i \in 1..MinOf(Len(a.bms), Len(b.bms)) : ~BookmarkOk(b, a, rel, i)}
+              capb == {i \in bad : b.bms[i] \notin Ids(b) /\ a.bms[i] = b.bms[i]} IN
+          (IF Len(a.bms) # Len(b.bms) \/ bad \ capb # {} THEN {"bookmark"} ELSE {})
+          \cup (IF capb # {} THEN {"bookmark.dangling.capture"} ELSE {}))
 
 TagOrder == <<"count", "numbers", "max_id", "trailer", "lost", "dangling.capture", "dangling.capture.pageorder", "dangling.resolves",
-              "content", "split", "merge", "pages", "bookmark", "bookmark.chain">>
+              "content", "split", "merge", "pages", "bookmark", "bookmark.chain", "bookmark.dangling.capture",
+              "pageorder.dupkids", "pageorder.numclash">>
 
 \* "ok" or the failing clauses joined by "+"
 VerdictOf(fails) ==
@@ -273,7 +286,11 @@ Traverse(objs, trailer, rep, liveIds, devDang) ==
 \* update_bookmark_pages for one (old, new) pair
 BmUpdate(bms, old, new) == [i \in 1..Len(bms) |-> IF bms[i] = old THEN new ELSE bms[i]]
 \* repaired: all targets renamed at once
-BmMap(bms, rep) == [i \in 1..Len(bms) |-> IF bms[i] \in DOMAIN rep THEN rep[bms[i]] ELSE bms[i]]
+\* (bmdang = TRUE, the deviation: a target that names no object is left as it is; FALSE: it is sent to
+\* the free-list head unless it already has number 0, the conventional "no page")
+BmMap(bms, rep, liveIds, bmdang) ==
+    [i \in 1..Len(bms) |-> IF bms[i] \in DOMAIN rep THEN rep[bms[i]]
+                           ELSE IF ~bmdang /\ bms[i][1] # 0 /\ bms[i] \notin liveIds THEN Tomb ELSE bms[i]]
 
 \* running state of the call
 ImplInit(d) ==
@@ -281,13 +298,21 @@ ImplInit(d) ==
      temp |-> <<>>, replace |-> <<>>, panic |-> FALSE]
 
 \* page-order pass ---------------------------------------------------------
-PageOrderOf(s)  == IterPages(s.objs, s.trailer)                  \* page_iter(), in page order
+\* page_iter(), in page order.  dup = TRUE (the deviation): a page listed twice in the tree takes part in
+\* the ordering twice; FALSE: once, at its first position.
+FirstOnly(pg) ==
+    LET D[i \in 0..Len(pg)] == IF i = 0 THEN <<>>
+                               ELSE IF \E j \in 1..(i - 1) : pg[j] = pg[i] THEN D[i - 1] ELSE Append(D[i - 1], pg[i])
+    IN D[Len(pg)]
+PageOrderOf(s, dup) == IF dup THEN IterPages(s.objs, s.trailer) ELSE FirstOnly(IterPages(s.objs, s.trailer))
 SortedPages(pg) == SortSeq(pg, IdLess)                            \* page_order.sort_by(id)
 NeedsOrdering(pg) == pg # SortedPages(pg)
 
 \* one iteration of `for (old, new) in pages.iter().zip(page_order)`
-PagePairStep(s, old, sortedId, devChain) ==
-    LET new == <<sortedId[1], old[2]>>
+\* clash = TRUE (the deviation): the page is re-keyed to <<number of the sorted slot, own generation>>,
+\* which may be the id of another object; FALSE: to the id of the slot (pages permuted over their own ids)
+PagePairStep(s, old, sortedId, devChain, clash) ==
+    LET new == IF clash THEN <<sortedId[1], old[2]>> ELSE sortedId
         has == old \in DOMAIN s.objs
     IN [s EXCEPT !.objs    = IF has THEN MapRemove(@, old) ELSE @,
                  !.temp    = IF has THEN MapPut(@, new, s.objs[old]) ELSE @,
@@ -295,11 +320,11 @@ PagePairStep(s, old, sortedId, devChain) ==
                  !.bms     = IF devChain /\ old # sortedId THEN BmUpdate(@, old, new) ELSE @]
 
 \* re-insert, traverse-and-replace, clear (also used by the dense pass without the clear)
-FinishPass(s, liveIds, devChain, devDang) ==
+FinishPass(s, liveIds, devChain, devDang, bmdang) ==
     LET objs1 == s.temp @@ s.objs
         t     == Traverse(objs1, s.trailer, s.replace, liveIds, devDang)
     IN [s EXCEPT !.objs = t.objs, !.trailer = t.trailer,
-                 !.bms = IF devChain THEN @ ELSE BmMap(@, s.replace),
+                 !.bms = IF devChain THEN @ ELSE BmMap(@, s.replace, liveIds, bmdang),
                  !.temp = <<>>, !.replace = <<>>]
 
 \* dense pass --------------------------------------------------------------
@@ -324,19 +349,29 @@ SetMaxId(s, start, n) ==
     IF start + n = 0 THEN [s EXCEPT !.panic = TRUE] ELSE [s EXCEPT !.max_id = start + n - 1]
 
 \* the whole call as a function
-ImplRun(d, start, devChain, devDang) ==
+\* The switches as one record.  CodeDev = the code as it is at HEAD of /repo (the four deviations repaired by
+\* fix: commits are FALSE; dup, clash, bmdang are the listed findings pageorder.dupkids, pageorder.numclash,
+\* bookmark.dangling.capture -- flip them when their fixes are in).  NoDev = every deviation repaired.
+Dev(chain, dang, dup, clash, bmdang) == [chain |-> chain, dang |-> dang, dup |-> dup, clash |-> clash, bmdang |-> bmdang]
+CodeDev == Dev(FALSE, FALSE, TRUE, TRUE, TRUE)
+NoDev   == Dev(FALSE, FALSE, FALSE, FALSE, FALSE)
+
+ImplRunX(d, start, dv) ==
     LET s0   == ImplInit(d)
-        pg   == PageOrderOf(s0)
+        pg   == PageOrderOf(s0, dv.dup)
         srt  == SortedPages(pg)
-        P[i \in 0..Len(pg)] == IF i = 0 THEN s0 ELSE PagePairStep(P[i - 1], pg[i], srt[i], devChain)
-        s1   == IF NeedsOrdering(pg) THEN FinishPass(P[Len(pg)], DOMAIN d.objs, devChain, devDang) ELSE s0
+        P[i \in 0..Len(pg)] == IF i = 0 THEN s0 ELSE PagePairStep(P[i - 1], pg[i], srt[i], dv.chain, dv.clash)
+        s1   == IF NeedsOrdering(pg) THEN FinishPass(P[Len(pg)], DOMAIN d.objs, dv.chain, dv.dang, dv.bmdang) ELSE s0
         live == DOMAIN s1.objs
         n    == Cardinality(live)
         s2   == [s1 EXCEPT !.replace = DenseReplace(s1.objs, start)]
         ord  == SetToSortSeq(DOMAIN s2.replace, IdLess)
-        D[i \in 0..Len(ord)] == IF i = 0 THEN s2 ELSE DensePairStep(D[i - 1], ord[i], devChain)
-        s3   == FinishPass(D[Len(ord)], live, devChain, devDang)
+        D[i \in 0..Len(ord)] == IF i = 0 THEN s2 ELSE DensePairStep(D[i - 1], ord[i], dv.chain)
+        s3   == FinishPass(D[Len(ord)], live, dv.chain, dv.dang, dv.bmdang)
     IN SetMaxId(s3, start, n)
+
+\* the first two switches explicit, the others as the code is
+ImplRun(d, start, devChain, devDang) == ImplRunX(d, start, [CodeDev EXCEPT !.chain = devChain, !.dang = devDang])
 
 \* the resulting document (pages as the declarative layer defines them)
 DocOfState(s) ==
@@ -347,10 +382,40 @@ ImplRenumber(d, start, devChain, devDang) == DocOfState(ImplRun(d, start, devCha
 
 \* Signature refinement of a failing "bookmark" clause: it is the confirmed pair-by-pair chain
 \* exactly when the observed targets are the ones the pair-by-pair transcription predicts.
-Classify(b, a, start) ==
+ClassifyChain(b, a, start) ==
     LET fs == Fails(b, a, start) IN
     IF "bookmark" \in fs /\ a.bms = ImplRun(b, start, TRUE, TRUE).bms /\ a.bms # ImplRun(b, start, FALSE, TRUE).bms
     THEN (fs \ {"bookmark"}) \cup {"bookmark.chain"} ELSE fs
+
+\* Input classes of the two page-order findings (computed from the document alone):
+\*  DupKids  -- a page is listed more than once in the page tree and the page-order pass runs;
+\*  NumClash -- the pass runs and would re-key some page to <<number of the sorted slot, own generation>>
+\*              where that id belongs to an object that is not one of the pages.
+DupKids(b)  == /\ b.pages # SortSeq(b.pages, IdLess)
+               /\ \E i, j \in 1..Len(b.pages) : i # j /\ b.pages[i] = b.pages[j]
+NumClash(b) == LET srt == SortSeq(b.pages, IdLess) IN
+               /\ b.pages # srt
+               /\ \E i \in 1..Len(b.pages) :
+                     LET k == <<srt[i][1], b.pages[i][2]>> IN
+                     k \in Ids(b) /\ \A j \in 1..Len(b.pages) : b.pages[j] # k
+
+\* clauses whose tag already names a narrow class by itself
+SelfClassified == {"dangling.capture", "dangling.capture.pageorder", "bookmark.chain", "bookmark.dangling.capture"}
+
+\* The remaining failing clauses are attributed to pageorder.dupkids / pageorder.numclash exactly when the
+\* document is in the class, the observed result is the one the transcription *with* these two deviations
+\* predicts, and the transcription *without* them fails none of those clauses on this document.
+Classify(b, a, start) ==
+    LET fs   == ClassifyChain(b, a, start)
+        rest == fs \ SelfClassified
+    IN IF rest = {} \/ ~(DupKids(b) \/ NumClash(b)) THEN fs
+       ELSE LET with    == ImplRunX(b, start, [CodeDev EXCEPT !.dup = TRUE, !.clash = TRUE])
+                without == ImplRunX(b, start, [CodeDev EXCEPT !.dup = FALSE, !.clash = FALSE])
+            IN IF /\ with.objs = a.objs /\ with.trailer = a.trailer /\ with.bms = a.bms /\ with.max_id = a.max_id
+                  /\ Fails(b, DocOfState(without), start) \cap rest = {}
+               THEN (fs \ rest) \cup (IF DupKids(b) THEN {"pageorder.dupkids"} ELSE {})
+                                \cup (IF NumClash(b) THEN {"pageorder.numclash"} ELSE {})
+               ELSE fs
 
 -----------------------------------------------------------------------------
 (* wire <-> document *)
